@@ -3,6 +3,7 @@ package gosym
 import (
 	"fmt"
 	"io"
+	"math/big"
 	"os"
 	"sort"
 	"strings"
@@ -149,8 +150,25 @@ func (r *Run) addTrace(t *TraceSample) {
 	r.mu.Unlock()
 }
 
-// fallback re-checks an obligation the primary solver could not decide with the second solver.
+// fallback handles an obligation the primary solver could not decide: first the concretisation ladder looks for a
+// concrete counterexample (cheap, model finding only), then the second solver gets a full-length attempt at a proof.
 func (r *Run) fallback(it *Interp, bad Value, msg, kind string) bool {
+	// a counterexample for this very assertion is already in hand: do not spend more solver time on siblings
+	r.mu.Lock()
+	for _, v := range r.Violations {
+		if v.Msg == msg {
+			r.mu.Unlock()
+			return false
+		}
+	}
+	r.mu.Unlock()
+	if m := r.ladder(it, bad); m != nil {
+		r.mu.Lock()
+		r.Queries["ladder-sat"]++
+		r.mu.Unlock()
+		r.addViolation(&Violation{Harness: r.Harness, Msg: msg, Kind: kind, Model: m, Where: it.where(), Trace: append([]int{}, it.trace...), Params: it.params})
+		panic(&pathEnd{why: "violation"})
+	}
 	if r.FallbackKind == "" {
 		return false
 	}
@@ -190,6 +208,90 @@ func (r *Run) fallback(it *Interp, bad Value, msg, kind string) bool {
 		panic(&pathEnd{why: "violation"})
 	}
 	return false
+}
+
+// ladder fixes input symbols one after the other to boundary / mid-range values until the solver can decide.
+func (r *Run) ladder(it *Interp, bad Value) map[string]string {
+	if r.DumpDir != "" {
+		os.WriteFile(fmt.Sprintf("%s/unknown-%s-%d.smt2", r.DumpDir, r.Harness, len(it.trace)), []byte(Prelude+strings.Join(it.script, "\n")+"\n(assert "+T(bad)+")\n(check-sat)\n"), 0o644)
+	}
+	s, err := StartSolver(r.SolverKind, 2000)
+	if err != nil {
+		return nil
+	}
+	defer s.Close()
+	rounds := 3
+	for round := 0; round < rounds; round++ {
+		s.Reset()
+		s.Send(strings.Join(it.script, "\n") + "\n(assert " + T(bad) + ")\n")
+		order := make([]anySym, 0, len(it.anySyms))
+		// coefficients (decimals) first, then amounts, then the rest
+		for _, k := range []string{"dec", "sdkint", "big", "uint32", "uint64", "int64"} {
+			for _, a := range it.anySyms {
+				if a.Kind == k && a.Sort == SInt {
+					order = append(order, a)
+				}
+			}
+		}
+		for idx, a := range order {
+			cands := ladderCandidates(a, round+idx)
+			fixed := false
+			for _, c := range cands {
+				s.Send("(push 1)\n(assert (= " + a.Name + " " + lit(c) + "))\n")
+				res := s.CheckSat()
+				if res == "sat" {
+					var names []string
+					for _, x := range it.anySyms {
+						names = append(names, x.Name)
+					}
+					vals := s.GetValues(names)
+					m := map[string]string{}
+					for _, x := range it.anySyms {
+						if v, ok := vals[x.Name]; ok {
+							m[x.Tag] = v
+						}
+					}
+					for k, v := range it.choices {
+						m[k] = v
+					}
+					return m
+				}
+				if res == "unknown" {
+					fixed = true // keep this value and go on fixing the next symbol
+					break
+				}
+				s.Send("(pop 1)\n")
+			}
+			if !fixed {
+				break // every candidate of this symbol is infeasible under the previous choices: next round
+			}
+		}
+	}
+	return nil
+}
+
+func ladderCandidates(a anySym, rot int) []*big.Int {
+	var c []*big.Int
+	if a.Lo != nil && a.Hi != nil {
+		mid := new(big.Int).Add(a.Lo, a.Hi)
+		mid.Rsh(mid, 1)
+		third := new(big.Int).Sub(a.Hi, a.Lo)
+		third.Div(third, big.NewInt(3))
+		third.Add(third, a.Lo)
+		c = append(c, mid, a.Hi, third, a.Lo)
+	}
+	e18 := new(big.Int).Exp(big.NewInt(10), big.NewInt(18), nil)
+	for _, v := range []*big.Int{e18, new(big.Int).Mul(e18, big.NewInt(7)), big.NewInt(1000003), big.NewInt(1), big.NewInt(0)} {
+		if a.Lo != nil && v.Cmp(a.Lo) < 0 || a.Hi != nil && v.Cmp(a.Hi) > 0 {
+			continue
+		}
+		c = append(c, v)
+	}
+	if len(c) == 0 {
+		return c
+	}
+	rot = rot % len(c)
+	return append(append([]*big.Int{}, c[rot:]...), c[:rot]...)
 }
 
 func NewRun(P *Program, pkgPath, fnName string, params map[string]string) (*Run, error) {
